@@ -35,7 +35,8 @@ pub enum RStep {
 #[derive(Clone, Debug, Default, Serialize, Deserialize, PartialEq)]
 pub struct ReadScript {
     pub steps: Vec<RStep>,
-    /// SO_RCVBUF to request (None = default); small values force sozu into partial writes
+    /// SO_RCVBUF to request (None = default): a bounded buffer plus a read stall forces sozu into
+    /// partial writes and WRITABLE re-arming
     pub rcvbuf: Option<u32>,
 }
 
@@ -65,7 +66,9 @@ pub fn write_script(max_pause_ms: u16) -> impl Strategy<Value = WriteScript> {
     ];
     (
         prop_oneof![2 => Just(vec![]), 3 => prop::collection::vec(step, 1..24)],
-        prop_oneof![4 => Just(None), 1 => Just(Some(4096u32)), 1 => Just(Some(16384u32))],
+        // not below the loopback MSS (65483): smaller buffers make the *kernel* stall for seconds
+        // (zero-window probing, silly-window avoidance), which is not the proxy's doing
+        prop_oneof![4 => Just(None), 1 => Just(Some(65536u32)), 1 => Just(Some(131072u32))],
     )
         .prop_map(move |(mut steps, sndbuf)| {
             // cap the total pause
@@ -90,7 +93,7 @@ pub fn read_script(max_stall_ms: u16) -> impl Strategy<Value = ReadScript> {
     ];
     (
         prop_oneof![2 => Just(vec![]), 3 => prop::collection::vec(step, 1..24)],
-        prop_oneof![3 => Just(None), 1 => Just(Some(2048u32)), 1 => Just(Some(8192u32))],
+        prop_oneof![3 => Just(None), 1 => Just(Some(65536u32)), 1 => Just(Some(131072u32))],
     )
         .prop_map(move |(mut steps, rcvbuf)| {
             let mut budget = max_stall_ms as u64;
